@@ -615,7 +615,17 @@ def run_one(seed, i, tier, scratch):
                 return csv_to_merchants_content(load_merchant_rules(os.path.join(root, cfg_, 'merchant_categories.csv')))
             rr = proc.run_func(root, conv, {'net': 'down'}, ctl_parent=ctlp)
             if rr.exit == 0 and isinstance(rr.result, str):
-                s0[cfg_ + '/merchants.rules'] = (rr.result + '\n[Corner Cafe]\nmatch: contains("CORNER")\ncategory: Food\nsubcategory: Cafe\n').encode('utf-8')
+                how = (i // 8) % 3
+                if how == 0:
+                    left = rr.result + '\n[Corner Cafe]\nmatch: contains("CORNER")\ncategory: Food\nsubcategory: Cafe\n'    # complete, plus a rule added by hand
+                elif how == 1:
+                    # what an older release's in-place write left when it was cut short: the generated header and part of the body
+                    lines_ = rr.result.split('\n')
+                    first_rule = next((n_ for n_, l_ in enumerate(lines_) if l_.startswith('[')), len(lines_))
+                    left = '\n'.join(lines_[:first_rule + 2]) + '\n'
+                else:
+                    left = '\n'.join(l_ for l_ in rr.result.split('\n') if l_.startswith('#') or not l_.strip()) + '\n'         # the header only
+                s0[cfg_ + '/merchants.rules'] = left.encode('utf-8')
                 scn = dict(scn, world=util.snap_to_json(s0), leftover_edited=False)
                 log.append(['leftover-edited', util.digest(scn['world'])])
         s0 = util.restore(root, s0)
